@@ -1,6 +1,6 @@
 #![allow(clippy::excessive_precision)]
 use crate::DualNum;
-use num_traits::{Float, Zero};
+use num_traits::Float;
 use std::f64::consts::{FRAC_2_PI, FRAC_PI_4};
 
 /// Implementation of bessel functions for double precision (hyper) dual numbers.
@@ -14,7 +14,7 @@ pub trait BesselDual: DualNum<f64> + Copy {
         if self.re() <= 5.0 {
             let z = self * self;
             if self.re() < 1.0e-5 {
-                return Self::one() - z / 4.0;
+                return Self::one() - z / 4.0 + z * z / 64.0 - z * z * z / 2304.0;
             }
 
             (z - DR1) * (z - DR2) * polevl(z, &RP0) / p1evl(z, &RQ0)
@@ -51,8 +51,16 @@ pub trait BesselDual: DualNum<f64> + Copy {
 
     /// 2nd order bessel function of the first kind
     fn bessel_j2(self) -> Self {
-        if self.re().is_zero() {
-            self * self / 8.0 * (self * self / 24.0 + 1.0)
+        if self.re().abs() < 1.0 {
+            // power series, the recurrence relation cancels catastrophically for small arguments
+            let z = self * self * (-0.25);
+            let mut term = self * self / 8.0;
+            let mut sum = term;
+            for k in 1..=12 {
+                term = term * z / f64::from(k * (k + 2));
+                sum += term;
+            }
+            sum
         } else {
             self.bessel_j1() * 2.0 / self - self.bessel_j0()
         }
